@@ -352,9 +352,9 @@ def xml_pairs():
 
 
 UNSUPPORTED = {
-    "rbx_types::basic_types::NumberSequence": "space-separated token stream consumed with an explicit `pieces.next()` loop",
-    "rbx_types::basic_types::ColorSequence": "space-separated token stream consumed with an explicit loop",
-    "rbx_types::basic_types::NumberRange": "space-separated tokens split on read",
+    "rbx_types::basic_types::NumberSequence": "space-separated token stream: decided by C02.tok (rules/C02_tok.py)",
+    "rbx_types::basic_types::ColorSequence": "space-separated token stream: decided by C02.tok (rules/C02_tok.py)",
+    "rbx_types::basic_types::NumberRange": "space-separated token stream: decided by C02.tok (rules/C02_tok.py)",
     "rbx_types::binary_string::BinaryString": "base64 text (third-party codec); the writer encodes the value through AsRef<[u8]>, which the field-identity check does not model",
     "rbx_types::basic_types::Color3uint8": "packed integer arithmetic (shifts / masks) on the text value",
     "rbx_xml::types::strings::ProtectedStringDummy": "read-only type",
